@@ -68,7 +68,7 @@ CHECKS = {
  'C16': dict(cat='exploration', ref='5/C16',
    tech='property-based testing: generated flag placements with duplicates, randomized zero-set identity test between flagged MCNP surfaces and the SURFs named by the boundary-condition entries',
    text='Decks with reflecting / white flags, flagged and unflagged duplicates under smaller and larger numbers, unused flagged surfaces and flagged macrobodies, with and without de-duplication; every entry must name a written SURF with the zero set of a flagged surface of the right kind, every flagged written surface gets exactly one entry, flagged macrobodies are rejected.',
-   note='Trusted: keyword mapping * -> REFLECTION, + -> COSINUS taken from the writer; one known finding (flag on single-facet macrobody accepted).'),
+   note='Trusted: keyword mapping * -> REFLECTION, + -> COSINUS taken from the writer;'),
  'C17': dict(cat='fault_enumeration', ref='5/C17',
    tech='fault injection: every fault class of the statement injected at drawn applicable sites of generated valid decks, plus exhaustive per-mnemonic and per-lattice-option enumeration',
    text='Each fault class listed in the property is injected into decks that are first shown to convert; the run must stop with an error that names the problem (not an incidental IndexError/KeyError/TypeError... with a stock message). Entry-count faults are enumerated for every mnemonic, lattice-option faults on fixed 1/2/3-D lattices.',
